@@ -1053,6 +1053,22 @@ func (ex *Exec) evCall(x *SCall, env *Env) Val {
 			owner = env.siteFn
 		}
 		return TV(ex.heapIn(env, siteErrHeap(owner, sl.V, n), SortIface), types.Universe.Lookup("error").Type())
+	case "lastret":
+		// lastret("callee", k, i): result i of the latest execution of the k-th
+		// call site of callee in the function under verification
+		sl, ok := x.Args[0].(*SStr)
+		kk, ok2 := x.Args[1].(*SInt)
+		ii, ok3 := x.Args[2].(*SInt)
+		if !ok || !ok2 || !ok3 || ex.top == nil {
+			specFail("lastret(\"callee\", k, i)")
+		}
+		kn, _ := strconv.Atoi(kk.V)
+		in, _ := strconv.Atoi(ii.V)
+		rt := ex.siteResultType(sl.V, kn, in)
+		if rt == nil {
+			specFail("lastret: no call site %s#%d with a result %d in %s", sl.V, kn, in, ex.top)
+		}
+		return TV(ex.heapIn(env, fmt.Sprintf("%s.%d", siteRetHeap(ex.top.String(), sl.V, kn), in), sortOf(rt)), rt)
 	case "structval":
 		// the struct value behind an immutable package-level pointer variable
 		v := arg(0)
